@@ -33,9 +33,38 @@ DEFAULT_ALPHABETS = {
 }
 
 
+def _runs(alphabet):
+    """sorted code point runs [(a, b)] of a string of characters"""
+    cps = sorted(set(ord(c) for c in alphabet))
+    runs = []
+    for c in cps:
+        if runs and runs[-1][1] == c - 1:
+            runs[-1][1] = c
+        else:
+            runs.append([c, c])
+    return [tuple(r) for r in runs]
+
+
+def from_alphabet(td):
+    """characters admitted by a FROM constraint (single characters and ranges), or None"""
+    f = td.get('from')
+    if not f:
+        return None
+    if None in f:
+        return None          # extensible permitted alphabet: not checked
+    out = set()
+    for item in f:
+        if isinstance(item, tuple):
+            for c in range(ord(item[0]), ord(item[1]) + 1):
+                out.add(chr(c))
+        else:
+            out.update(item)
+    return ''.join(sorted(out))
+
+
 class Bounds:
     def __init__(self, int_abs=1 << 40, n_len=2, depth=3, str_len=2, oid_arcs=3, arc_max=1 << 20,
-                 real='special'):
+                 real='special', free=False, margin=1 << 17, free_len_cap=5):
         self.int_abs = int_abs
         self.n_len = n_len
         self.depth = depth
@@ -43,6 +72,11 @@ class Bounds:
         self.oid_arcs = oid_arcs
         self.arc_max = arc_max
         self.real = real
+        # free: values are NOT confined to the declared constraints (C11/C12): integers range
+        # `margin` beyond both bounds, lengths from 0 to one past the upper bound
+        self.free = free
+        self.margin = margin
+        self.free_len_cap = free_len_cap
 
     def as_dict(self):
         return dict(vars(self))
@@ -209,6 +243,10 @@ class Gen:
             raise Inconclusive('value nesting deeper than bound')
         if t == 'INTEGER':
             lo, hi, ext = int_range(spec, rtd, rmod)
+            if b.free:
+                lo2 = (lo if lo is not None else (hi if hi is not None else 0)) - b.margin
+                hi2 = (hi if hi is not None else (lo if lo is not None else 0)) + b.margin
+                return ctx.int(path, lo2, hi2)
             if ext or lo is None:
                 lo2 = -b.int_abs
             else:
@@ -236,8 +274,11 @@ class Gen:
         if t == 'BIT STRING':
             lo, hi, ext = size_range(spec, rtd, rmod)
             maxbits = 8 * b.n_len
+            if b.free:
+                ext, lo = True, 0
+                hi = (hi + 1) if hi is not None else maxbits
             lo2 = lo or 0
-            hi2 = maxbits if (hi is None or ext) else min(hi, max(maxbits, lo2))
+            hi2 = (hi if b.free else maxbits) if (hi is None or ext) else min(hi, max(maxbits, lo2))
             if lo2 > hi2:
                 hi2 = lo2
             if ext:
@@ -253,10 +294,17 @@ class Gen:
             enc, maxcp = STRING_TYPES[t]
             n = self._length(ctx, path, size_range(spec, rtd, rmod), b.str_len)
             cps = []
+            inherent = DEFAULT_ALPHABETS.get(t)
             for i in range(n):
                 c = ctx.bv('%s[%d]' % (path, i), SymStr.CPW)
-                ctx.eng.assume(z3.And(z3.ULE(c, maxcp),
-                                      z3.Not(z3.And(z3.UGE(c, 0xd800), z3.ULE(c, 0xdfff)))))
+                if inherent is not None:
+                    # characters of the type's own alphabet (X.680 table 8); what a FROM
+                    # constraint further removes is up to the constraint checker
+                    ctx.eng.assume(z3.Or([z3.And(z3.UGE(c, a), z3.ULE(c, b2))
+                                          for a, b2 in _runs(inherent)]))
+                else:
+                    ctx.eng.assume(z3.And(z3.ULE(c, maxcp),
+                                          z3.Not(z3.And(z3.UGE(c, 0xd800), z3.ULE(c, 0xdfff)))))
                 cps.append(c)
             return SymStr(cps)
         if t in ('SEQUENCE', 'SET'):
@@ -367,6 +415,13 @@ class Gen:
 
     def _length(self, ctx, path, rng, cap):
         lo, hi, ext = rng
+        if self.b.free:
+            top = cap
+            if hi is not None:
+                top = min(hi + 1, self.b.free_len_cap)
+            elif lo:
+                top = min(lo + 1, self.b.free_len_cap)
+            return ctx.choose(path + '#', top + 1)
         lo = lo or 0
         if ext:
             lo, hi = 0, None
@@ -672,3 +727,70 @@ class Equiv:
             conds.append(_leaf_eq(SymStr.of(o), d))
             return
         raise Inconclusive('equivalence for type %s' % t)
+
+
+# ---------------------------------------------------------------------------
+# independent interpreter of the parsed constraints (C11): does a value violate a
+# non-extensible single-value / single-range / SIZE / FROM constraint?
+# ---------------------------------------------------------------------------
+class ConstraintOracle:
+    def __init__(self, gen):
+        self.gen = gen
+        self.spec = gen.spec
+
+    def violates(self, v, td, module):
+        """z3 Bool: some component of v is outside a constraint the tool interprets"""
+        out = []
+        self._walk(v, td, module, out)
+        return z3.Or(out) if out else z3.BoolVal(False)
+
+    def _rng(self, x, lo, hi):
+        conds = []
+        if lo is not None:
+            conds.append(to_z3bool(x < lo))
+        if hi is not None:
+            conds.append(to_z3bool(x > hi))
+        return conds
+
+    def _walk(self, v, td, module, out):
+        rtd, rmod, _c = self.spec.resolve(td, module)
+        t = rtd['type']
+        if t == 'INTEGER':
+            lo, hi, ext = int_range(self.spec, rtd, rmod)
+            if not ext and isinstance(v, (int, SymInt)):
+                out.extend(self._rng(v, lo, hi))
+            return
+        if t in ('OCTET STRING',) or t in STRING_TYPES:
+            lo, hi, ext = size_range(self.spec, rtd, rmod)
+            if 'size' in rtd and not ext:
+                out.extend(self._rng(len(v), lo, hi))
+            if t in STRING_TYPES:
+                alpha = from_alphabet(rtd)
+                if alpha is not None and isinstance(v, (str, SymStr)):
+                    for c in SymStr.of(v).cp:
+                        e = SymStr._e(c)
+                        out.append(z3.Not(z3.Or([z3.And(z3.UGE(e, a), z3.ULE(e, b2))
+                                                 for a, b2 in _runs(alpha)])))
+            return
+        if t == 'BIT STRING':
+            lo, hi, ext = size_range(self.spec, rtd, rmod)
+            if 'size' in rtd and not ext:
+                out.extend(self._rng(v[1], lo, hi))
+            return
+        if t in ('SEQUENCE OF', 'SET OF'):
+            lo, hi, ext = size_range(self.spec, rtd, rmod)
+            if 'size' in rtd and not ext:
+                out.extend(self._rng(len(v), lo, hi))
+            for x in v:
+                self._walk(x, rtd['element'], rmod, out)
+            return
+        if t in ('SEQUENCE', 'SET'):
+            for m, _a in members_of(rtd):
+                if m['name'] in v:
+                    self._walk(v[m['name']], m, rmod, out)
+            return
+        if t == 'CHOICE':
+            for m, _a in members_of(rtd):
+                if m['name'] == v[0]:
+                    self._walk(v[1], m, rmod, out)
+            return
